@@ -63,6 +63,7 @@ func init() {
 				{Scenario: "c08_rollback", Params: mustJSON(RollbackParams{}), Bound: 0, Shards: 4, Note: "the documented rollback filter: nothing at or below the position already reached, everything above it"},
 				{Scenario: "c03_conc", Params: mustJSON(ConcParams{}), Bound: 2, Shards: 8, Note: "three vBuckets on two nodes streaming concurrently, all schedules within the bound"},
 				{Scenario: "c03_conc", Params: mustJSON(ConcParams{Block: true}), Bound: 1, Shards: 4, Note: "consumer blocked inside a delivery of vb0 while the other node keeps delivering"},
+				{Scenario: "reopen_life", Params: mustJSON(LifeParams{Oracle: "delivery", Segs: 2}), Bound: 0, Shards: 8, Note: "chains of transient ends and re-opens (same history / fail-over without rollback / rollback), every acknowledgement pattern between them"},
 			}
 		},
 	})
@@ -82,6 +83,7 @@ func init() {
 				out = append(out, Instance{Scenario: "pipe", Params: mustJSON(PipeParams{Mode: "script", Layout: l, Depth: d, Ops: ops, CrashEnd: true}), Bound: 0, Shards: 4})
 			}
 			out = append(out, Instance{Scenario: "pipe_malformed", Params: mustJSON(struct{}{}), Bound: 0})
+			out = append(out, Instance{Scenario: "reopen_life", Params: mustJSON(LifeParams{Oracle: "tuple", Segs: 2}), Bound: 0, Shards: 8, Note: "chains of transient ends and re-opens on changing history branches with late acknowledgements of earlier segments"})
 			out = append(out, Instance{Scenario: "c06_reopen", Params: mustJSON(struct{}{}), Bound: 0, Note: "transient end, re-open answered with a rollback: the observer carries its old snapshot into the catch-up phase"})
 			return out
 		},
